@@ -366,11 +366,15 @@ Fixpoint encode (s : schema) (v : value) : eres (list Z) :=
              match ps with
              | [] => EOk []
              | (k, m, sub) :: r =>
+                 (* try: sub_encoder(obj[key])  except KeyError: sub_encoder(defaults[key]) —
+                    the except clause also catches a KeyError raised *inside* sub_encoder(obj[key])
+                    (a nested object with a missing key), and then encodes the default instead *)
+                 let dflt := match p_default m with Some d => encode sub d | None => EErr EKey end in
                  ebind (match lookup k kv with
-                        | Some x => EOk x
-                        | None => match p_default m with Some d => EOk d | None => EErr EKey end
+                        | Some x => match encode sub x with EErr EKey => dflt | r => r end
+                        | None => dflt
                         end)
-                   (fun x => ebind (encode sub x) (fun bs => ebind (go r) (fun rs => EOk (bs ++ rs))))
+                   (fun bs => ebind (go r) (fun rs => EOk (bs ++ rs)))
              end) ps
       | _ => EErr EOther
       end
